@@ -1,7 +1,12 @@
-"""Source facts for C12: h3/src/proto/headers.rs (Field::parse tables, is_token_char, HeaderIter order, the
-fallible HeaderMap calls, the presence of the request/response checks), h3/src/ext.rs (Protocol tables) and the
-error codes used where a HeaderError is turned into a stream error (server/request.rs resolve,
-client/stream.rs recv_response, connection.rs poll_recv_trailers)."""
+"""Source facts for C12: h3/src/proto/headers.rs, h3/src/ext.rs and the six call sites
+(server/request.rs resolve, client/stream.rs recv_response, connection.rs poll_recv_trailers / send_trailers,
+client/connection.rs send_request, server/stream.rs send_response).
+
+Every item is read as a WHOLE statement sequence: comments are stripped, all white space is removed and the text
+is matched in full against a template in which only the facts (tables, optional checks, error codes, constructor
+names) are variable.  Anything else - an extra statement, a condition wrapped around a check, a re-binding of a
+variable between the decoder and Header::try_from - no longer matches and raises AnchorLost (= the theorems are
+no longer about this code: a violation)."""
 import re
 from rustsrc import Source, AnchorLost, match_close
 
@@ -15,8 +20,26 @@ ITER_FIELDS = {'method': 'KMethod', 'scheme': 'KScheme', 'authority': 'KAuthorit
                'status': 'KStatus', 'protocol': 'KProtocol'}
 
 
+def nows(s):
+    return re.sub(r'\s+', '', s)
+
+
+def L(s):
+    """literal piece of a template (white space insensitive)"""
+    return re.escape(nows(s))
+
+
+STR = r'"[^"]*"'
+
+
+def full(template, text, what):
+    m = re.fullmatch(template, nows(text))
+    if not m:
+        raise AnchorLost('%s does not have the expected statement sequence' % what)
+    return m
+
+
 def byte_lit(tok):
-    """b'a' / b'\\'' / b':' -> int"""
     m = re.match(r"b'(\\?.)'$", tok.strip())
     if not m:
         raise AnchorLost('byte literal ' + tok)
@@ -36,116 +59,170 @@ def extract(repo):
     # ---- is_token_char: the matches! alternatives as inclusive ranges (absent before the F16 fix)
     try:
         body, spans['is_token_char'] = src.fn_body('is_token_char')
-        m = re.search(r'matches!\s*\(\s*b\s*,', body)
+    except AnchorLost:
+        body = None
+    if body is None:
+        f['token_ranges'] = None
+    else:
+        m = re.fullmatch(r'\s*matches!\s*\(\s*b\s*,(.*)\)\s*', body, re.S)
         if not m:
-            raise AnchorLost('is_token_char matches!')
-        i = body.index('(', m.start())
-        j = match_close(body, i, '(', ')')
-        alts = body[m.end():j]
-        ranges = []
+            raise AnchorLost('is_token_char is not a single matches!(b, ..)')
+        alts = m.group(1)
         lit = r"b'(?:\\.|[^'\\])'"
-        for mm in re.finditer(r"(%s)(?:\s*\.\.=\s*(%s))?" % (lit, lit), alts):
+        rng = r"(%s)(?:\s*\.\.=\s*(%s))?" % (lit, lit)
+        ranges = []
+        for mm in re.finditer(rng, alts):
             lo = byte_lit(mm.group(1))
             hi = byte_lit(mm.group(2)) if mm.group(2) else lo
             ranges.append((lo, hi))
-        leftover = re.sub(r"(%s)(?:\s*\.\.=\s*(%s))?" % (lit, lit), '', alts)
-        if leftover.replace('|', '').strip():
-            raise AnchorLost('is_token_char pattern: ' + leftover.strip()[:40])
+        if re.sub(rng, '', alts).replace('|', '').strip():
+            raise AnchorLost('is_token_char pattern has something else than byte literals and ranges')
         f['token_ranges'] = ranges
-    except AnchorLost as ex:
-        if 'not found' in str(ex):
-            f['token_ranges'] = None      # no such function: no extra name check
-        else:
-            raise
 
-    # ---- Field::parse
+    # ---- Field::parse, whole body
     body, spans['Field::parse'] = src.fn_body('parse')
-    f['empty_name_is_error'] = bool(re.search(r'if\s+name\.is_empty\(\)\s*\{\s*return\s+Err\(\s*HeaderError::InvalidHeaderName', body))
-    m = re.search(r"if\s+name\[0\]\s*!=\s*(b'\\?.')\s*\{", body)
-    if not m:
-        raise AnchorLost('Field::parse regular-name guard')
-    f['pseudo_prefix'] = byte_lit(m.group(1))
-    i = body.index('{', m.start())
-    j = match_close(body, i)
-    reg = body[i:j]
-    if f['token_ranges'] is not None:
-        f['token_check_used'] = bool(re.search(r'if\s+!\s*name\.iter\(\)\.all\(\s*\|b\|\s*is_token_char\(\*b\)\s*\)\s*\{\s*return\s+Err\(\s*HeaderError::invalid_name', reg))
-    else:
-        f['token_check_used'] = False
-    mm = re.search(r'HeaderName::(from_lowercase|from_bytes)\(name\)', reg)
-    if not mm:
-        raise AnchorLost('Field::parse HeaderName constructor')
-    f['name_ctor_lowercase'] = (mm.group(1) == 'from_lowercase')
-    f['value_checked'] = bool(re.search(r'HeaderValue::from_bytes\(value\.as_ref\(\)\)\s*\.map_err', reg))
-    rest = body[j:]
-    km = re.search(r'Ok\(\s*match\s+name\s*\{', rest)
-    if not km:
-        raise AnchorLost('Field::parse pseudo match')
-    f['pseudo_value_checked'] = bool(re.search(r'HeaderValue::from_bytes\(value\.as_ref\(\)\)\s*\.map_err\([^;]*HeaderError::invalid_value\([^;]*\)\s*\)\?\s*;', rest[:km.start()]))
-    arms = re.findall(r'b"(:[^"]*)"\s*=>\s*Field::(\w+)\(\s*(try_value|Method::from_bytes|StatusCode::from_bytes)\(', rest)
-    if not arms:
-        raise AnchorLost('Field::parse pseudo arms')
-    for nm, kind, parser in arms:
+    tokcheck = L('if !name.iter().all(|b| is_token_char(*b)) { return Err(HeaderError::invalid_name(name)); }')
+    ret = (L('return Ok(Field::Header((HeaderName::') + r'(?P<ctor>from_lowercase|from_bytes)' +
+           L('(name).map_err(|_| HeaderError::invalid_name(name))?,') +
+           r'(?P<valchk>' + L('HeaderValue::from_bytes(value.as_ref()).map_err(|_| HeaderError::invalid_value(name, value))?,') + r')' +
+           L(')));'))
+    pchk = L('HeaderValue::from_bytes(value.as_ref()).map_err(|_| HeaderError::invalid_value(name, value.as_ref()))?;')
+    arm = (r'b"(:[^"]*)"=>Field::(\w+)\((?:' + L('try_value(name, value)?') + r'|' +
+           r'(?:Method|StatusCode)' + L('::from_bytes(value.as_ref()).map_err(|_| HeaderError::invalid_value(name, value))?,') + r')\),')
+    tmpl = (L('let name = name.as_ref();') +
+            r'(?P<empty>' + L('if name.is_empty() { return Err(HeaderError::InvalidHeaderName(') + STR + L('.into())); }') + r')?' +
+            L('if name[0] != ') + r"(?P<prefix>b'\\?.')" + r'\{' +
+            r'(?P<tok>' + tokcheck + r')?' + ret + r'\}' +
+            r'(?P<pchk>' + pchk + r')?' +
+            L('Ok(match name {') + r'(?P<arms>(?:' + arm + r')+)' +
+            r'(?P<unknown>' + L('_ => return Err(HeaderError::invalid_name(name)),') + r')' + L('})'))
+    m = full(tmpl, body, 'Field::parse')
+    f['empty_name_is_error'] = m.group('empty') is not None
+    f['pseudo_prefix'] = byte_lit(m.group('prefix'))
+    f['token_check_used'] = m.group('tok') is not None
+    if f['token_check_used'] and f['token_ranges'] is None:
+        raise AnchorLost('is_token_char used but not found')
+    f['name_ctor_lowercase'] = m.group('ctor') == 'from_lowercase'
+    f['value_checked'] = True
+    f['pseudo_value_checked'] = m.group('pchk') is not None
+    f['unknown_pseudo_is_error'] = True
+    arms = []
+    for am in re.finditer(r'b"(:[^"]*)"=>Field::(\w+)\((try_value|Method::from_bytes|StatusCode::from_bytes)\(', m.group('arms')):
+        nm, kind, parser = am.groups()
         if kind not in KINDS:
             raise AnchorLost('Field variant ' + kind)
+        arms.append((nm, kind, parser))
     f['arms'] = arms
-    f['unknown_pseudo_is_error'] = bool(re.search(r'_\s*=>\s*return\s+Err\(\s*HeaderError::invalid_name\(name\)\s*\)', rest))
 
-    # ---- try_value: utf8 first
+    # ---- try_value, whole body
     body, spans['try_value'] = src.fn_body('try_value')
-    f['try_value_utf8'] = bool(re.search(r'std::str::from_utf8\(value\)\s*\.map_err', body)) and bool(re.search(r'R::from_str\(s\)', body))
+    full(L('let (name, value) = (name.as_ref(), value.as_ref());'
+           'let s = std::str::from_utf8(value).map_err(|_| HeaderError::invalid_value(name, value))?;'
+           'R::from_str(s).map_err(|_| HeaderError::invalid_value(name, value))'), body, 'try_value')
+    f['try_value_utf8'] = True
 
-    # ---- HeaderIter::next
+    # ---- HeaderIter::next, whole body
     blk, spans['HeaderIter::next'], _ = src.item_block(r'impl\s+Iterator\s+for\s+HeaderIter')
-    order = re.findall(r'pseudo\.(\w+)\.take\(\)\s*\{\s*return\s+Some\(\s*\(\s*"(:[^"]*)"', blk)
-    if not order:
-        raise AnchorLost('HeaderIter pseudo order')
-    for fld, _nm in order:
-        if fld not in ITER_FIELDS:
+    mnext = re.search(r'fn\s+next\s*\(\s*&mut\s+self\s*\)\s*->\s*Option<Self::Item>\s*\{', blk)
+    if not mnext:
+        raise AnchorLost('HeaderIter::next')
+    i = mnext.end() - 1
+    nbody = blk[i + 1:match_close(blk, i)]
+    take = (r'iflet' + r'Some\((\w+)\)=pseudo\.(\w+)\.take\(\)\{returnSome\(\((":[^"]*"),(\w+)\.as_str\(\)(?:\.as_bytes\(\))?\)\.into\(\)\);\}')
+    loop = L('for (new_header_name, header_value) in self.fields.by_ref() {'
+             'if let Some(new) = new_header_name { self.last_header_name = Some(new); }'
+             'if let (Some(ref n), v) = (&self.last_header_name, header_value) { return Some((n.as_str(), v.as_bytes()).into()); } }')
+    pblock = L('if let Some(ref mut pseudo) = self.pseudo {') + r'(?P<takes>(?:' + take + r')+)\}' + L('self.pseudo = None;')
+    mm = re.fullmatch(r'(?:(?P<pf>' + pblock + loop + r')|(?P<ff>' + loop + pblock.replace('?P<takes>', '?P<takes2>') + r'))' + L('None'), nows(nbody))
+    if not mm:
+        raise AnchorLost('HeaderIter::next does not have the expected statement sequence')
+    f['iter_pseudo_first'] = mm.group('pf') is not None
+    takes = mm.group('takes') if f['iter_pseudo_first'] else mm.group('takes2')
+    order = []
+    for tm in re.finditer(take, takes):
+        var, fld, nm, var2 = tm.groups()
+        if fld not in ITER_FIELDS or var != fld or var2 != fld:
             raise AnchorLost('HeaderIter field ' + fld)
+        order.append((fld, nm.strip('"')))
     f['iter_order'] = order
-    last_take = max(mm.start() for mm in re.finditer(r'pseudo\.\w+\.take\(\)', blk))
-    loop = re.search(r'for\s*\(\s*new_header_name\s*,\s*header_value\s*\)\s*in\s+self\.fields', blk)
-    if not loop:
-        raise AnchorLost('HeaderIter field loop')
-    f['iter_pseudo_first'] = loop.start() > last_take
 
-    # ---- TryFrom<Vec<HeaderField>>
+    # ---- TryFrom<Vec<HeaderField>>, whole body
     body, spans['try_from'] = src.fn_body('try_from')
-    if re.search(r'HeaderMap::try_with_capacity\(\s*headers\.len\(\)\s*\)\s*\.map_err\(\s*\|_\|\s*HeaderError::TooManyFields\s*\)\?', body):
-        f['alloc_fallible'] = True
-    elif re.search(r'HeaderMap::with_capacity\(\s*headers\.len\(\)\s*\)', body):
-        f['alloc_fallible'] = False
-    else:
-        raise AnchorLost('try_from map allocation')
-    if re.search(r'\.try_append\(\s*n\s*,\s*v\s*\)\s*\.map_err\(\s*\|_\|\s*HeaderError::TooManyFields\s*\)\?', body):
-        f['append_fallible'] = True
-    elif re.search(r'fields\s*\.append\(\s*n\s*,\s*v\s*\)', body):
-        f['append_fallible'] = False
-    else:
-        raise AnchorLost('try_from map append')
+    parm = r'Field::(\w+)\((\w)\)=>\{pseudo\.(\w+)=Some\((\w)\);pseudo\.len\+=1;\}'
+    harm = (r'Field::Header\(\(n,v\)\)=>\{(?:(?P<tryapp>' + L('fields.try_append(n, v).map_err(|_| HeaderError::TooManyFields)?;') +
+            r')|(?P<app>' + L('fields.append(n, v);') + r'))\}')
+    tmpl = (r'(?:(?P<tryalloc>' + L('let mut fields = HeaderMap::try_with_capacity(headers.len()).map_err(|_| HeaderError::TooManyFields)?;') +
+            r')|(?P<alloc>' + L('let mut fields = HeaderMap::with_capacity(headers.len());') + r'))' +
+            L('let mut pseudo = Pseudo::default();'
+              'for field in headers.into_iter() { let (name, value) = field.into_inner(); match Field::parse(name, value)? {') +
+            r'(?:' + parm + r')*' + harm + r'(?:' + parm + r')*' + L('} }') + L('Ok(Header { pseudo, fields })'))
+    m = full(tmpl, body, 'Header::try_from')
+    f['alloc_fallible'] = m.group('tryalloc') is not None
+    f['append_fallible'] = m.group('tryapp') is not None
+    seen = set()
+    for pm in re.finditer(parm, nows(body)):
+        variant, v1, fld, v2 = pm.groups()
+        if variant.lower() != fld or variant not in KINDS or v1 != v2:
+            raise AnchorLost('try_from stores Field::%s into pseudo.%s' % (variant, fld))
+        seen.add(variant)
+    if seen != set(KINDS):
+        raise AnchorLost('try_from pseudo arms ' + ','.join(sorted(seen)))
 
-    # ---- into_request_parts / into_response_parts / Header::request: which checks exist
+    # ---- into_request_parts, whole body
     body, spans['into_request_parts'] = src.fn_body('into_request_parts')
-    m = re.search(r'self\.fields\.get\(\s*"([^"]*)"\s*\)', body)
-    if not m:
-        raise AnchorLost('into_request_parts host lookup')
-    f['host_name'] = m.group(1)
-    f['req_missing_authority'] = bool(re.search(r'\(\s*None\s*,\s*None\s*\)\s*=>\s*return\s+Err\(\s*HeaderError::MissingAuthority\s*\)', body))
-    f['req_contradiction'] = bool(re.search(r'\(\s*Some\(a\)\s*,\s*Some\(h\)\s*\)\s*if\s+a\.as_str\(\)\s*!=\s*h\s*=>\s*\{?\s*return\s+Err\(\s*HeaderError::ContradictedAuthority\s*\)', body))
-    f['req_method_required'] = bool(re.search(r'self\.pseudo\.method\.ok_or\(\s*HeaderError::MissingMethod\s*\)\?', body))
-    f['req_uri_checked'] = bool(re.search(r'uri\.build\(\)\.map_err\(\s*HeaderError::InvalidRequest\s*\)\?', body))
+    tmpl = (L('let mut uri = Uri::builder();'
+              'if let Some(path) = self.pseudo.path { uri = uri.path_and_query(path.as_str().as_bytes()); }'
+              'if let Some(scheme) = self.pseudo.scheme { uri = uri.scheme(scheme.as_str().as_bytes()); }'
+              'match (self.pseudo.authority, self.fields.get(') + r'"(?P<host>[^"]*)"' + L(')) {') +
+            r'(?P<missing>' + L('(None, None) => return Err(HeaderError::MissingAuthority),') + r')?' +
+            L('(Some(a), None) => uri = uri.authority(a.as_str().as_bytes()),'
+              '(None, Some(h)) => uri = uri.authority(h.as_bytes()),') +
+            r'(?P<contra>' + L('(Some(a), Some(h)) if a.as_str() != h => { return Err(HeaderError::ContradictedAuthority) }') + r')?' +
+            L('(Some(_), Some(h)) => uri = uri.authority(h.as_bytes()), }'
+              'Ok(( self.pseudo.method.ok_or(HeaderError::MissingMethod)?,'
+              'uri.build().map_err(HeaderError::InvalidRequest)?, self.pseudo.protocol, self.fields, ))'))
+    m = full(tmpl, body, 'Header::into_request_parts')
+    f['host_name'] = m.group('host')
+    f['req_missing_authority'] = m.group('missing') is not None
+    f['req_contradiction'] = m.group('contra') is not None
+    f['req_method_required'] = True
+    f['req_uri_checked'] = True
     body, spans['into_response_parts'] = src.fn_body('into_response_parts')
-    f['resp_status_required'] = bool(re.search(r'self\.pseudo\.status\.ok_or\(\s*HeaderError::MissingStatus\s*\)\?', body))
+    full(L('Ok(( self.pseudo.status.ok_or(HeaderError::MissingStatus)?, self.fields, ))'), body, 'Header::into_response_parts')
+    f['resp_status_required'] = True
+    body, spans['into_fields'] = src.fn_body('into_fields')
+    full(L('self.fields'), body, 'Header::into_fields')
+
+    # ---- Header::request / response / trailer, Pseudo::request / response: whole bodies
     body, spans['Header::request'] = src.fn_body('request')
-    m = re.search(r'fields\.get\(\s*"([^"]*)"\s*\)', body)
-    if not m:
-        raise AnchorLost('Header::request host lookup')
-    f['send_host_name'] = m.group(1)
-    f['send_missing_authority'] = bool(re.search(r'\(\s*None\s*,\s*None\s*\)\s*=>\s*Err\(\s*HeaderError::MissingAuthority\s*\)', body))
-    f['send_contradiction'] = bool(re.search(r'\(\s*Some\(a\)\s*,\s*Some\(h\)\s*\)\s*if\s+a\.as_str\(\)\s*!=\s*h\s*=>\s*Err\(\s*HeaderError::ContradictedAuthority\s*\)', body))
+    tmpl = (L('match (uri.authority(), fields.get(') + r'"(?P<host>[^"]*)"' + L(')) {') +
+            r'(?P<missing>' + L('(None, None) => Err(HeaderError::MissingAuthority),') + r')?' +
+            r'(?P<contra>' + L('(Some(a), Some(h)) if a.as_str() != h => Err(HeaderError::ContradictedAuthority),') + r')?' +
+            L('_ => Ok(Self { pseudo: Pseudo::request(method, uri, ext), fields, }), }'))
+    m = full(tmpl, body, 'Header::request')
+    f['send_host_name'] = m.group('host')
+    f['send_missing_authority'] = m.group('missing') is not None
+    f['send_contradiction'] = m.group('contra') is not None
+    body, spans['Header::response'] = src.fn_body('response')
+    full(L('Self { pseudo: Pseudo::response(status), fields, }'), body, 'Header::response')
     body, spans['Header::trailer'] = src.fn_body('trailer')
-    f['trailer_pseudo_default'] = bool(re.search(r'pseudo:\s*Pseudo::default\(\)', body))
+    full(L('Self { pseudo: Pseudo::default(), fields, }'), body, 'Header::trailer')
+    f['trailer_pseudo_default'] = True
+    pblk, spans['impl Pseudo'], _ = src.item_block(r'impl\s+Pseudo\s*\{')
+    psrc = Source.__new__(Source)
+    psrc.path, psrc.raw, psrc.text = src.path, pblk, pblk
+    body, _sp = psrc.fn_body('request')
+    full(L('let Parts { scheme, authority, path_and_query, .. } = uri::Parts::from(uri);'
+           'let path = path_and_query.map_or_else( || PathAndQuery::from_static("/"), |path| {'
+           'if path.path().is_empty() && method != Method::OPTIONS { PathAndQuery::from_static("/") } else { path } }, );'
+           'let protocol = if method == Method::CONNECT { ext.get::<Protocol>().copied() } else { None };'
+           'let (scheme, path) = if method == Method::CONNECT && protocol.is_none() { (None, None) }'
+           'else { (scheme.or(Some(Scheme::HTTPS)), Some(path)) };'
+           'let len = 3 + authority.is_some() as usize + protocol.is_some() as usize;'
+           'Self { method: Some(method), scheme, authority, path, status: None, protocol, len, }'), body, 'Pseudo::request')
+    body, _sp = psrc.fn_body('response')
+    full(L('Pseudo { method: None, scheme: None, authority: None, path: None, status: Some(status), len: 1, protocol: None, }'),
+         body, 'Pseudo::response')
 
     # ---- ext.rs Protocol
     ext = Source(repo + '/h3/src/ext.rs')
@@ -155,11 +232,12 @@ def extract(repo):
         raise AnchorLost('ProtocolInner variants')
     f['proto_variants'] = variants
     body, spans['Protocol::as_str'] = ext.fn_body('as_str')
-    f['proto_as_str'] = re.findall(r'ProtocolInner::(\w+)\s*=>\s*"([^"]*)"', body)
+    m = full(L('match self.0 {') + r'(?P<rows>(?:ProtocolInner::\w+=>' + STR + r',)+)\}', body, 'Protocol::as_str')
+    f['proto_as_str'] = re.findall(r'ProtocolInner::(\w+)=>"([^"]*)"', m.group('rows'))
     body, spans['Protocol::from_str'] = ext.fn_body('from_str')
-    f['proto_from_str'] = re.findall(r'"([^"]*)"\s*=>\s*Ok\(\s*Self\(\s*ProtocolInner::(\w+)\s*\)\s*\)', body)
-    if not f['proto_as_str'] or not f['proto_from_str']:
-        raise AnchorLost('Protocol tables')
+    m = full(L('match s {') + r'(?P<rows>(?:' + STR + r'=>Ok\(Self\(ProtocolInner::\w+\)\),)+)' + L('_ => Err(InvalidProtocol), }'),
+             body, 'Protocol::from_str')
+    f['proto_from_str'] = re.findall(r'"([^"]*)"=>Ok\(Self\(ProtocolInner::(\w+)\)\)', m.group('rows'))
     for v, _s in f['proto_as_str']:
         if v not in variants:
             raise AnchorLost('as_str variant ' + v)
@@ -167,52 +245,101 @@ def extract(repo):
         if v not in variants:
             raise AnchorLost('from_str variant ' + v)
 
-    # ---- the call sites: HeaderError -> stream error
+    # ---- receive call sites: from the binding of `fields` by the QPACK decoder to the end of the function
     srv = Source(repo + '/h3/src/server/request.rs')
     body, spans['resolve'] = srv.fn_body('resolve')
-    m = re.search(r'let\s+error_code\s*=\s*Code::(\w+)\s*;', body)
-    if not m:
-        raise AnchorLost('resolve error_code')
-    f['srv_code'] = m.group(1)
-    tail = body[m.end():]
-    f['srv_reset'] = bool(re.search(r'self\.request_stream\.stop_stream\(\s*error_code\s*\)', tail))
-    f['srv_stop'] = bool(re.search(r'self\.request_stream\.stop_sending\(\s*error_code\s*\)', tail))
-    if not re.search(r'StreamError::StreamError\s*\{\s*code:\s*error_code\s*,', tail):
-        raise AnchorLost('resolve StreamError code')
+    k = re.search(r'let\s+fields\s*=\s*match\s+self\.decoded\s*\{', body)
+    if not k:
+        raise AnchorLost('resolve: let fields = match self.decoded')
+    j = match_close(body, k.end() - 1)
+    head = nows(body[k.end():j])
+    if not re.fullmatch(L('Ok(v) => v.fields, Err(cancel_size) => {') + r'.*' + L('return Err(StreamError::HeaderTooBig {') + r'[^{}]*\}\);\}', head):
+        raise AnchorLost('resolve: how `fields` is bound')
+    rest = body[j + 1:]
+    if not rest.lstrip().startswith(';'):
+        raise AnchorLost('resolve: statement after the fields binding')
+    rest = rest.lstrip()[1:]
+    tmpl = (L('let result = match Header::try_from(fields) { Ok(header) => match header.into_request_parts() {'
+              'Ok(parts) => Ok(parts), Err(err) => Err(err), }, Err(err) => Err(err), };'
+              'let (method, uri, protocol, headers) = match result { Ok(parts) => parts, Err(err) => {'
+              'let error_code = Code::') + r'(?P<code>\w+);' +
+            r'(?P<reset>' + L('self.request_stream.stop_stream(error_code);') + r')?' +
+            r'(?P<stop>' + L('self.request_stream.stop_sending(error_code);') + r')?' +
+            L('return Err(StreamError::StreamError { code: error_code, reason: format!(') + STR + L(', err), }); } };') +
+            L('let mut req = http::Request::new(());'
+              '*req.method_mut() = method; *req.uri_mut() = uri; *req.headers_mut() = headers;'
+              'if let Some(protocol) = protocol { req.extensions_mut().insert(protocol); }'
+              '*req.version_mut() = http::Version::HTTP_3;') +
+            r'(?:#\[cfg\(feature="tracing"\)\]tracing::trace!\([^;]*\);)?' +
+            L('Ok((req, self.request_stream))'))
+    m = full(tmpl, rest, 'server resolve (from Header::try_from on)')
+    f['srv_code'] = m.group('code')
+    f['srv_reset'] = m.group('reset') is not None
+    f['srv_stop'] = m.group('stop') is not None
 
     cli = Source(repo + '/h3/src/client/stream.rs')
     body, spans['recv_response'] = cli.fn_body('recv_response')
-    k = body.find('Header::try_from(fields)')
-    if k < 0:
-        raise AnchorLost('recv_response try_from')
-    tail = body[k:]
-    k2 = tail.find('.into_response_parts()')
-    if k2 < 0:
-        raise AnchorLost('recv_response into_response_parts')
-    a, b = tail[:k2], tail[k2:]
-    ca = re.findall(r'code:\s*Code::(\w+)', a)
-    cb = re.findall(r'code:\s*Code::(\w+)', b)
-    sa = re.findall(r'stop_sending\(\s*Code::(\w+)\s*\)', a)
-    sb = re.findall(r'stop_sending\(\s*Code::(\w+)\s*\)', b)
-    if len(ca) != 1 or len(cb) < 1:
-        raise AnchorLost('recv_response codes')
-    f['cli_code_try_from'] = ca[0]
-    f['cli_code_parts'] = cb[0]
-    f['cli_stop_try_from'] = sa[0] if sa else None
-    f['cli_stop_parts'] = sb[0] if sb else None
+    k = re.search(r'let\s+qpack::Decoded\s*\{\s*fields\s*,\s*\.\.\s*\}\s*=\s*decoded\s*;', body)
+    if not k:
+        raise AnchorLost('recv_response: let qpack::Decoded { fields, .. } = decoded')
+    if not re.search(L('let decoded = if let Frame::Headers(ref mut encoded) = frame {'
+                       'match qpack::decode_stateless(encoded, self.inner.max_field_section_size) {'), nows(body[:k.start()])):
+        raise AnchorLost('recv_response: where `decoded` comes from')
+    closure = (L('.map_err(|_e| {') + r'(?:' + L('self.inner.stream.stop_sending(Code::') + r'(\w+)\);)?' +
+               L('StreamError::StreamError { code: Code::') + r'(\w+),reason:' + STR + L('.to_string(), } })?'))
+    tmpl = (L('let (status, headers) = Header::try_from(fields)') + closure + L('.into_response_parts()') + closure + r';' +
+            L('let mut resp = Response::new(()); *resp.status_mut() = status; *resp.headers_mut() = headers;'
+              '*resp.version_mut() = http::Version::HTTP_3; Ok(resp)'))
+    m = full(tmpl, body[k.end():], 'client recv_response (from Header::try_from on)')
+    f['cli_stop_try_from'], f['cli_code_try_from'], f['cli_stop_parts'], f['cli_code_parts'] = m.groups()
 
     con = Source(repo + '/h3/src/connection.rs')
     body, spans['poll_recv_trailers'] = con.fn_body('poll_recv_trailers')
-    k = body.find('Header::try_from(fields)')
-    if k < 0:
-        raise AnchorLost('poll_recv_trailers try_from')
-    tail = body[k:]
-    c = re.findall(r'code:\s*Code::(\w+)', tail)
-    s = re.findall(r'self\.stop_sending\(\s*Code::(\w+)\s*\)', tail)
-    if len(c) < 1:
-        raise AnchorLost('poll_recv_trailers code')
-    f['trl_code'] = c[0]
-    f['trl_stop'] = s[0] if s else None
+    k = re.search(r'let\s+qpack::Decoded\s*\{\s*fields\s*,\s*\.\.\s*\}\s*=\s*match\s+qpack::decode_stateless\(\s*&mut\s+trailers\s*,\s*self\.max_field_section_size\s*\)\s*\{', body)
+    if not k:
+        raise AnchorLost('poll_recv_trailers: let qpack::Decoded { fields, .. } = match qpack::decode_stateless(..)')
+    j = match_close(body, k.end() - 1)
+    if not re.search(L('Ok(decoded) => decoded,'), nows(body[k.end():j])):
+        raise AnchorLost('poll_recv_trailers: how `fields` is bound')
+    rest = body[j + 1:].lstrip()
+    if not rest.startswith(';'):
+        raise AnchorLost('poll_recv_trailers: statement after the fields binding')
+    tmpl = (L('Poll::Ready(Ok(Some( Header::try_from(fields).map_err(|_e| {') +
+            r'(?:' + L('self.stop_sending(Code::') + r'(\w+)\);)?' +
+            L('StreamError::StreamError { code: Code::') + r'(\w+),reason:' + STR + L('.to_string(), } })? .into_fields(), )))'))
+    m = full(tmpl, rest[1:], 'poll_recv_trailers (from Header::try_from on)')
+    f['trl_stop'], f['trl_code'] = m.groups()
+
+    # ---- send call sites: which constructor, with which arguments, is encoded and written
+    body, spans['send_trailers'] = con.fn_body('send_trailers')
+    nb = nows(body)
+    if not nb.startswith(nows('let mut block = BytesMut::new(); let mem_size = qpack::encode_stateless(&mut block, Header::trailer(trailers)).map_err(|_e| {')):
+        raise AnchorLost('send_trailers does not start with encode_stateless(&mut block, Header::trailer(trailers))')
+    if nb.count('letmutblock') != 1 or nows('stream::write(&mut self.stream, Frame::Headers(block.freeze()))') not in nb:
+        raise AnchorLost('send_trailers: what is written')
+    ccon = Source(repo + '/h3/src/client/connection.rs')
+    body, spans['send_request'] = ccon.fn_body('send_request')
+    nb = nows(body)
+    a = nb.find(nows('let (parts, _) = req.into_parts(); let request::Parts { method, uri, headers, extensions, .. } = parts;'
+                     'let headers = Header::request(method, uri, headers, extensions).map_err(|_e| {'))
+    b = nb.find(nows('let mut block = BytesMut::new(); let mem_size = qpack::encode_stateless(&mut block, headers).map_err(|_e| {'))
+    c = nb.find(nows('stream::write(&mut stream, Frame::Headers(block.freeze()))'))
+    if a < 0 or b < a or c < b:
+        raise AnchorLost('send_request: Header::request(method, uri, headers, extensions) -> encode_stateless -> write')
+    seg = nb[a:b]
+    seg = seg[seg.find('})?;') + 4:]
+    if 'headers' in seg or 'block' in seg or nb.count('letmutblock') != 1 or nb.count('letheaders=') != 1:
+        raise AnchorLost('send_request: headers/block touched between construction and encoding')
+    sstr = Source(repo + '/h3/src/server/stream.rs')
+    body, spans['send_response'] = sstr.fn_body('send_response')
+    nb = nows(body)
+    if not nb.startswith(nows('let (parts, _) = resp.into_parts(); let response::Parts { status, headers, .. } = parts;'
+                              'let headers = Header::response(status, headers); let mut block = BytesMut::new();'
+                              'let mem_size = qpack::encode_stateless(&mut block, headers).map_err(|_e| {')):
+        raise AnchorLost('send_response does not start with Header::response(status, headers) -> encode_stateless')
+    if nb.count('letmutblock') != 1 or nows('stream::write(&mut self.inner.stream, Frame::Headers(block.freeze()))') not in nb:
+        raise AnchorLost('send_response: what is written')
+    f['send_sites_ok'] = True
     return f, spans
 
 
@@ -229,56 +356,59 @@ def optcode(c):
 
 
 def render(f):
-    L = ['(* GENERATED by translate/gen_headers.py from h3/src/proto/headers.rs, h3/src/ext.rs, h3/src/server/request.rs,',
-         '   h3/src/client/stream.rs, h3/src/connection.rs *)',
-         'From H3V Require Import Base.Bytes Gen.GenCodes.',
-         'Inductive pkind := KMethod | KScheme | KAuthority | KPath | KStatus | KProtocol.',
-         'Inductive pparser := PTryValue | PMethodFromBytes | PStatusFromBytes.',
-         '(* is_token_char: inclusive byte ranges of the matches! pattern; token_check_used = Field::parse applies it to regular names *)']
+    Ls = ['(* GENERATED by translate/gen_headers.py from h3/src/proto/headers.rs, h3/src/ext.rs, h3/src/server/request.rs,',
+          '   h3/src/client/stream.rs, h3/src/connection.rs, h3/src/client/connection.rs, h3/src/server/stream.rs *)',
+          'From H3V Require Import Base.Bytes Gen.GenCodes.',
+          'Inductive pkind := KMethod | KScheme | KAuthority | KPath | KStatus | KProtocol.',
+          'Inductive pparser := PTryValue | PMethodFromBytes | PStatusFromBytes.',
+          '(* is_token_char: inclusive byte ranges of the matches! pattern; token_check_used = Field::parse applies it, unconditionally, to regular names *)']
     tr = f['token_ranges'] or []
-    L.append('Definition token_char_ranges : list (N * N) := [%s].' % '; '.join('(%d, %d)' % r for r in tr))
-    L.append('Definition token_check_used : bool := %s.' % cb(f['token_check_used']))
-    L.append('Definition empty_name_is_error : bool := %s.' % cb(f['empty_name_is_error']))
-    L.append('Definition pseudo_prefix : N := %d.' % f['pseudo_prefix'])
-    L.append('Definition name_ctor_lowercase : bool := %s.' % cb(f['name_ctor_lowercase']))
-    L.append('Definition value_checked : bool := %s.' % cb(f['value_checked']))
-    L.append('Definition pseudo_value_checked : bool := %s.' % cb(f['pseudo_value_checked']))
-    L.append('(* the pseudo-header arms of Field::parse, in source order *)')
-    L.append('Definition pseudo_arms : list (bytes * (pkind * pparser)) := [')
-    L.append(';\n'.join('  (%s, (%s, %s)) (* %s *)' % (bl(nm), KINDS[k], PARSERS[p], nm) for nm, k, p in f['arms']))
-    L.append('].')
-    L.append('Definition unknown_pseudo_is_error : bool := %s.' % cb(f['unknown_pseudo_is_error']))
-    L.append('Definition try_value_utf8 : bool := %s.' % cb(f['try_value_utf8']))
-    L.append('(* HeaderIter::next: the order in which the pseudo fields are taken, with the names written *)')
-    L.append('Definition iter_order : list (pkind * bytes) := [')
-    L.append(';\n'.join('  (%s, %s) (* %s *)' % (ITER_FIELDS[k], bl(nm), nm) for k, nm in f['iter_order']))
-    L.append('].')
-    L.append('Definition iter_pseudo_first : bool := %s.' % cb(f['iter_pseudo_first']))
-    L.append('Definition alloc_fallible : bool := %s.' % cb(f['alloc_fallible']))
-    L.append('Definition append_fallible : bool := %s.' % cb(f['append_fallible']))
-    L.append('Definition host_name : bytes := %s. (* %s *)' % (bl(f['host_name']), f['host_name']))
-    L.append('Definition req_missing_authority : bool := %s.' % cb(f['req_missing_authority']))
-    L.append('Definition req_contradiction : bool := %s.' % cb(f['req_contradiction']))
-    L.append('Definition req_method_required : bool := %s.' % cb(f['req_method_required']))
-    L.append('Definition req_uri_checked : bool := %s.' % cb(f['req_uri_checked']))
-    L.append('Definition resp_status_required : bool := %s.' % cb(f['resp_status_required']))
-    L.append('Definition send_host_name : bytes := %s. (* %s *)' % (bl(f['send_host_name']), f['send_host_name']))
-    L.append('Definition send_missing_authority : bool := %s.' % cb(f['send_missing_authority']))
-    L.append('Definition send_contradiction : bool := %s.' % cb(f['send_contradiction']))
-    L.append('Definition trailer_pseudo_default : bool := %s.' % cb(f['trailer_pseudo_default']))
-    L.append('(* ext.rs: Protocol variants are numbered in declaration order *)')
+    Ls.append('Definition token_char_ranges : list (N * N) := [%s].' % '; '.join('(%d, %d)' % r for r in tr))
+    Ls.append('Definition token_check_used : bool := %s.' % cb(f['token_check_used']))
+    Ls.append('Definition empty_name_is_error : bool := %s.' % cb(f['empty_name_is_error']))
+    Ls.append('Definition pseudo_prefix : N := %d.' % f['pseudo_prefix'])
+    Ls.append('Definition name_ctor_lowercase : bool := %s.' % cb(f['name_ctor_lowercase']))
+    Ls.append('Definition value_checked : bool := %s.' % cb(f['value_checked']))
+    Ls.append('Definition pseudo_value_checked : bool := %s.' % cb(f['pseudo_value_checked']))
+    Ls.append('(* the pseudo-header arms of Field::parse, in source order *)')
+    Ls.append('Definition pseudo_arms : list (bytes * (pkind * pparser)) := [')
+    Ls.append(';\n'.join('  (%s, (%s, %s)) (* %s *)' % (bl(nm), KINDS[k], PARSERS[p], nm) for nm, k, p in f['arms']))
+    Ls.append('].')
+    Ls.append('Definition unknown_pseudo_is_error : bool := %s.' % cb(f['unknown_pseudo_is_error']))
+    Ls.append('Definition try_value_utf8 : bool := %s.' % cb(f['try_value_utf8']))
+    Ls.append('(* HeaderIter::next: the order in which the pseudo fields are taken, with the names written *)')
+    Ls.append('Definition iter_order : list (pkind * bytes) := [')
+    Ls.append(';\n'.join('  (%s, %s) (* %s *)' % (ITER_FIELDS[k], bl(nm), nm) for k, nm in f['iter_order']))
+    Ls.append('].')
+    Ls.append('Definition iter_pseudo_first : bool := %s.' % cb(f['iter_pseudo_first']))
+    Ls.append('Definition alloc_fallible : bool := %s.' % cb(f['alloc_fallible']))
+    Ls.append('Definition append_fallible : bool := %s.' % cb(f['append_fallible']))
+    Ls.append('Definition host_name : bytes := %s. (* %s *)' % (bl(f['host_name']), f['host_name']))
+    Ls.append('Definition req_missing_authority : bool := %s.' % cb(f['req_missing_authority']))
+    Ls.append('Definition req_contradiction : bool := %s.' % cb(f['req_contradiction']))
+    Ls.append('Definition req_method_required : bool := %s.' % cb(f['req_method_required']))
+    Ls.append('Definition req_uri_checked : bool := %s.' % cb(f['req_uri_checked']))
+    Ls.append('Definition resp_status_required : bool := %s.' % cb(f['resp_status_required']))
+    Ls.append('Definition send_host_name : bytes := %s. (* %s *)' % (bl(f['send_host_name']), f['send_host_name']))
+    Ls.append('Definition send_missing_authority : bool := %s.' % cb(f['send_missing_authority']))
+    Ls.append('Definition send_contradiction : bool := %s.' % cb(f['send_contradiction']))
+    Ls.append('Definition trailer_pseudo_default : bool := %s.' % cb(f['trailer_pseudo_default']))
+    Ls.append('(* ext.rs: Protocol variants are numbered in declaration order *)')
     idx = {v: i for i, v in enumerate(f['proto_variants'])}
-    L.append('Definition proto_count : N := %d.' % len(idx))
-    L.append('Definition proto_from_str : list (bytes * N) := [%s].' % '; '.join('(%s, %d)' % (bl(s), idx[v]) for s, v in f['proto_from_str']))
-    L.append('Definition proto_as_str : list (N * bytes) := [%s].' % '; '.join('(%d, %s)' % (idx[v], bl(s)) for v, s in f['proto_as_str']))
-    L.append('(* call sites: code of the StreamError returned, codes passed to stop_stream (reset) / stop_sending *)')
-    L.append('Definition srv_code : N := %s.' % f['srv_code'])
-    L.append('Definition srv_reset : option N := %s.' % optcode(f['srv_code'] if f['srv_reset'] else None))
-    L.append('Definition srv_stop : option N := %s.' % optcode(f['srv_code'] if f['srv_stop'] else None))
-    L.append('Definition cli_code_try_from : N := %s.' % f['cli_code_try_from'])
-    L.append('Definition cli_code_parts : N := %s.' % f['cli_code_parts'])
-    L.append('Definition cli_stop_try_from : option N := %s.' % optcode(f['cli_stop_try_from']))
-    L.append('Definition cli_stop_parts : option N := %s.' % optcode(f['cli_stop_parts']))
-    L.append('Definition trl_code : N := %s.' % f['trl_code'])
-    L.append('Definition trl_stop : option N := %s.' % optcode(f['trl_stop']))
-    return '\n'.join(L) + '\n'
+    Ls.append('Definition proto_count : N := %d.' % len(idx))
+    Ls.append('Definition proto_from_str : list (bytes * N) := [%s].' % '; '.join('(%s, %d)' % (bl(s), idx[v]) for s, v in f['proto_from_str']))
+    Ls.append('Definition proto_as_str : list (N * bytes) := [%s].' % '; '.join('(%d, %s)' % (idx[v], bl(s)) for v, s in f['proto_as_str']))
+    Ls.append('(* call sites: code of the StreamError returned, codes passed to stop_stream (reset) / stop_sending *)')
+    Ls.append('Definition srv_code : N := %s.' % f['srv_code'])
+    Ls.append('Definition srv_reset : option N := %s.' % optcode(f['srv_code'] if f['srv_reset'] else None))
+    Ls.append('Definition srv_stop : option N := %s.' % optcode(f['srv_code'] if f['srv_stop'] else None))
+    Ls.append('Definition cli_code_try_from : N := %s.' % f['cli_code_try_from'])
+    Ls.append('Definition cli_code_parts : N := %s.' % f['cli_code_parts'])
+    Ls.append('Definition cli_stop_try_from : option N := %s.' % optcode(f['cli_stop_try_from']))
+    Ls.append('Definition cli_stop_parts : option N := %s.' % optcode(f['cli_stop_parts']))
+    Ls.append('Definition trl_code : N := %s.' % f['trl_code'])
+    Ls.append('Definition trl_stop : option N := %s.' % optcode(f['trl_stop']))
+    Ls.append('(* send_request / send_response / send_trailers encode and write exactly Header::request(method, uri, headers, extensions) /')
+    Ls.append('   Header::response(status, headers) / Header::trailer(trailers) of the caller\'s parts *)')
+    Ls.append('Definition send_sites_ok : bool := %s.' % cb(f['send_sites_ok']))
+    return '\n'.join(Ls) + '\n'
